@@ -155,6 +155,7 @@ struct World
 
 	Scenario const& scn;
 	std::unique_ptr<HConfig> cfg;
+	std::unique_ptr<sim::default_config> dcfg;   // `config default`: the library's own configuration
 	std::unique_ptr<sim::simulation> sim;
 	std::map<std::string, std::unique_ptr<sim::asio::io_context>> nodes;
 	std::string default_node;
